@@ -78,8 +78,8 @@ STRENGTHENED = {
     "C10j": "types in INCLUDE fragments that the includer extends, edit_fragment operator, battery always asks "
             "every member access (quick tier sees it at about 1200 cases: thorough tier)",
     "C15i": "vendored modules named like bundled intrinsic ones in the template workspaces",
-    "C15j": "headers for preprocessed template files placed next to another preprocessed source (not caught at "
-            "the quick tier's case count; see the evaluation)",
+    "C15j": "headers for preprocessed template files placed next to another preprocessed source, a second "
+            "preprocessed source",
     "C16i": "readiness/time seam: select() on the simulated stdin and sleep() answered from the client model and "
             "a virtual clock; bursts followed by a waiting client; idle-wait reported as a lost message",
     "C16j": "pairs of files whose names differ by what an over-eager URI conversion erases, one of them "
